@@ -84,6 +84,7 @@ fn main() {
         "cost_trace" => drivers::cost::run_cost_trace(&mut ctx),
         "rta" => drivers::rta::run_rta(&mut ctx),
         "search" => drivers::rta::run_search(&mut ctx),
+        "systems" => drivers::systems::run(&mut ctx),
         "demand" => drivers::cost::run_demand(&mut ctx),
         d => {
             eprintln!("unknown driver {}", d);
